@@ -601,6 +601,76 @@ def reach_edges(body, starts, avoid_edges=(), avoid_blocks=()):
     return seen
 
 
+def reach_edges_cp(body, starts, avoid_edges=(), avoid_blocks=(), limit=200000):
+    """Like reach_edges, but with constant propagation of bool locals that are assigned literal
+    `true` / `false` (and their negations / copies): a switch on such a local follows only the
+    edge that matches the value known on that path.  This removes the classic false path
+    `let need = if c { ..; true } else { false }; if need { check()? }`."""
+    avoid_edges = set(avoid_edges)
+    avoid_blocks = set(avoid_blocks)
+    bool_locals = {i for i, t in enumerate(body.locals) if t == 'bool'}
+    seen = set()
+    reached = set()
+    dq = deque()
+    for s in starts:
+        if s not in avoid_blocks:
+            node = (s, frozenset())
+            seen.add(node)
+            dq.append(node)
+    n = 0
+    while dq:
+        n += 1
+        if n > limit:
+            # give up on precision, fall back to the plain over-approximation
+            return reach_edges(body, starts, avoid_edges, avoid_blocks)
+        b, env = dq.popleft()
+        reached.add(b)
+        envd = dict(env)
+        blk = body.blocks[b]
+        for st in blk.stmts:
+            if st.kind != 'A' or not st.place.is_local():
+                if st.kind == 'A' and st.place.local in envd:
+                    envd.pop(st.place.local, None)
+                continue
+            l = st.place.local
+            if l not in bool_locals:
+                continue
+            rv = st.rv
+            val = None
+            if rv.k == 'use' and rv.ops:
+                o = rv.ops[0]
+                if o.kind == 'k' and o.const.get('v') in ('true', 'false'):
+                    val = o.const['v'] == 'true'
+                elif o.place is not None and o.place.is_local() and o.place.local in envd:
+                    val = envd[o.place.local]
+            elif rv.k == 'un' and rv.raw['op'] == 'Not' and rv.ops and rv.ops[0].place is not None and \
+                    rv.ops[0].place.is_local() and rv.ops[0].place.local in envd:
+                val = not envd[rv.ops[0].place.local]
+            if val is None:
+                envd.pop(l, None)
+            else:
+                envd[l] = val
+        t = blk.term
+        if t.k == 'call' and t.dest is not None and t.dest.is_local():
+            envd.pop(t.dest.local, None)
+        succs = body.succs(b)
+        if t.k == 'switch' and t.discr.place is not None and t.discr.place.is_local() and t.discr.place.local in envd:
+            v = 1 if envd[t.discr.place.local] else 0
+            listed = {val_: tg for val_, tg in t.values}
+            succs = [listed[v]] if v in listed else [t.otherwise]
+            succs = [x for x in succs if not body.blocks[x].cleanup]
+        # keep only facts about locals that are still live-ish: cap the environment
+        env2 = frozenset(sorted(envd.items())[:12])
+        for s in succs:
+            if (b, s) in avoid_edges or s in avoid_blocks:
+                continue
+            node = (s, env2)
+            if node not in seen:
+                seen.add(node)
+                dq.append(node)
+    return reached
+
+
 def path_edges(body, starts, goal_blocks, avoid_edges=(), avoid_blocks=()):
     """A shortest block path from any start to any goal under the same restrictions, or None."""
     avoid_edges = set(avoid_edges)
